@@ -30,7 +30,7 @@ func init() {
 			"non-trivial = accepted split of a total > 0 with at least two non-zero shares, or a rejected vector (sum != 1 without remaining); distinct = script text + total",
 		Assumptions: []string{
 			"shares are observed as credits of distinct accounts fed from @world (destination side) and as debits of distinct accounts allowing unbounded overdraft (source side)",
-			"portion vectors whose other clauses exceed one together with `remaining` are not specified by the property and are skipped",
+			"whether portion vectors whose other clauses exceed one together with `remaining` are rejected is not specified; when such a split is accepted its shares are still held to the statement (no negative share, explicit portions get floor or floor+1, shares add up to the total)",
 		},
 		QuickBudget: 60 * time.Second,
 		ThoroBudget: 12 * time.Minute,
@@ -177,7 +177,46 @@ func runC06(w *mc.Worker) {
 					}
 					key := text + "|" + total.String()
 					if kind == ref.EUnspecified {
-						w.Eval(key, false, "unspecified-vector")
+						// the other portions exceed one next to `remaining`: whether this is rejected is
+						// not specified, but a SUCCESSFUL split is still bound by the letter of the
+						// statement: no negative share, explicit portions get floor or floor+1, shares add up
+						w.Eval(key, out.Err == nil && out.Panic == "", "over-one-with-remaining:"+out.Class())
+						if out.Panic != "" {
+							w.Violation("panic@"+out.Where, "allotment execution panicked: "+out.Panic, len(text), c())
+							return
+						}
+						if out.Err != nil {
+							return
+						}
+						got := credits(out.Postings)
+						if side == 1 {
+							got = debits(out.Postings)
+						}
+						sum := new(big.Int)
+						bad := ""
+						for i := range entries {
+							g := got[accts[i]]
+							if g == nil {
+								g = new(big.Int)
+							}
+							sum.Add(sum, g)
+							if g.Sign() < 0 && bad == "" {
+								bad = fmt.Sprintf("clause %d got the negative share %s", i, g)
+							}
+							if portions[i] != nil && bad == "" {
+								prod := new(big.Rat).Mul(portions[i], new(big.Rat).SetInt(total))
+								fl := new(big.Int).Div(prod.Num(), prod.Denom())
+								if d := new(big.Int).Sub(g, fl); d.Sign() < 0 || d.Cmp(bi(1)) > 0 {
+									bad = fmt.Sprintf("clause %d got %s, the floor of its portion of the total is %s", i, g, fl)
+								}
+							}
+						}
+						if bad == "" && sum.Cmp(total) != 0 {
+							bad = fmt.Sprintf("shares add up to %s, total is %s", sum, total)
+						}
+						if bad != "" {
+							w.Violation("over-one-accepted-with-wrong-shares", "portions exceeding one next to `remaining` were accepted and split wrongly: "+bad, len(text)+total.BitLen(), c())
+						}
 						return
 					}
 					if out.Panic != "" {
